@@ -1,3 +1,5 @@
 import Sqljson.Audit
 import Sqljson.Props.C08
+import Sqljson.Props.GenFacts
 #audit_ns C08 Sqljson.C08
+#audit C08 [Sqljson.GenFacts.raise_unchanged]
